@@ -64,6 +64,7 @@ Definition sent_params K (d : desc) (e : event) : list (string * num) :=
   flat_map (fun a => if has a e1 then [(a, vnum (ev_call K e1 a))] else []) (sent_names d).
 
 Lemma note_play_l : forall K lib lat now node e d,
+  cached_params K (put "freq" (VNum (detuned_freq K e)) e) = None ->
   lib_at (sym_of (ev_call K (put "freq" (VNum (detuned_freq K e)) e) "instrument")) lib = Some d ->
   get "send_gate" e = None ->
   let ps := sent_params K d e in
@@ -75,8 +76,8 @@ Lemma note_play_l : forall K lib lat now node e d,
     then [snew; (stamp now (lat + toQ (vnum (ev_call K e2 "sustain"))), MSet node [("gate"%string, I 0)])]
     else [snew].
 Proof.
-  intros K lib lat now node e d Hlib Hsg ps e2 snew.
-  unfold play_note, get_msg_params. rewrite Hlib. cbv zeta.
+  intros K lib lat now node e d Hc Hlib Hsg ps e2 snew.
+  unfold play_note, get_msg_params. rewrite Hc, Hlib. cbv zeta.
   fold (sent_names d). fold (sent_params K d e). fold ps. fold (played K d ps e). fold e2.
   assert (G : ev_call K e2 "send_gate" = VBool (d_has_gate d)).
   { unfold ev_call, e2, played. rewrite !get_put_neq by reflexivity. rewrite Hsg. cbn.
@@ -109,6 +110,7 @@ Qed.
 
 (* the statement of the property file *)
 Lemma note_play_commands_l : forall K lib lat now node e d,
+  cached_params K (put "freq" (VNum (detuned_freq K e)) e) = None ->
   lib_at (sym_of (ev_call K (put "freq" (VNum (detuned_freq K e)) e) "instrument")) lib = Some d ->
   get "send_gate" e = None ->
   let ps := sent_params K d e in
@@ -124,11 +126,53 @@ Lemma note_play_commands_l : forall K lib lat now node e d,
        x = vnum (ev_call K (put "has_gate" (VBool (d_has_gate d)) (put "freq" (VNum (detuned_freq K e)) e)) a)) /\
   (forall t, 0 <= t -> stamp now t == now + t).
 Proof.
-  intros K lib lat now node e d Hlib Hsg ps e2 snew. split; [exact (note_play_l K lib lat now node e d Hlib Hsg)|].
+  intros K lib lat now node e d Hc Hlib Hsg ps e2 snew. split; [exact (note_play_l K lib lat now node e d Hc Hlib Hsg)|].
   split; [|intros t Ht; exact (stamp_nonneg now t Ht)].
   intros a x. split.
   - apply sent_params_sound.
   - intros [H1 [H2 H3]]. subst x. apply sent_params_complete; assumption.
+Qed.
+
+(* ---- an event object used again ----------------------------------------------------------------------------------------- *)
+(* the control list is recomputed from the event's CURRENT keys unless the event has never been played and carries a
+   non-empty msg_params given by the user *)
+Lemma cached_only_before_first_play : forall K e,
+  (truthy (plain K e "is_playing") = true -> cached_params K e = None) /\
+  (get "msg_params" e = None -> cached_params K e = None).
+Proof.
+  intros K e. unfold cached_params. split; intros H; [|rewrite H; reflexivity].
+  destruct (get "msg_params" e) as [[| | | | | |[|p l]|]|]; try reflexivity. rewrite H. reflexivity.
+Qed.
+
+(* NoteEvent.play marks the object: whatever keys are changed, added or removed afterwards (is_playing excepted), and in
+   every copy of it, the next play recomputes the control list *)
+Lemma played_event_is_playing : forall K lib node e, plain K (play_note_upd K lib node e) "is_playing" = VBool true.
+Proof.
+  intros K lib node e. unfold play_note_upd. destruct (get_msg_params K lib (put "freq" (VNum (detuned_freq K e)) e)) as [e2 ps].
+  unfold plain. rewrite get_put_same. reflexivity.
+Qed.
+Lemma is_playing_survives_put : forall K e k v, String.eqb "is_playing" k = false ->
+  plain K (put k v e) "is_playing" = plain K e "is_playing".
+Proof. intros K e k v H. unfold plain. rewrite get_put_neq by exact H. reflexivity. Qed.
+
+Lemma replay_recomputes_l : forall K lib node e k v, String.eqb "is_playing" k = false ->
+  cached_params K (play_note_upd K lib node e) = None /\
+  cached_params K (put k v (play_note_upd K lib node e)) = None.
+Proof.
+  intros K lib node e k v Hk. split; apply (proj1 (cached_only_before_first_play K _)).
+  - rewrite played_event_is_playing. reflexivity.
+  - rewrite is_playing_survives_put by exact Hk. rewrite played_event_is_playing. reflexivity.
+Qed.
+
+(* a non-empty list given by the user on an event that was never played is sent as it is *)
+Lemma note_play_cached_l : forall K lib lat now node e ps,
+  cached_params K (put "freq" (VNum (detuned_freq K e)) e) = Some ps ->
+  exists e2 gate, play_note K lib lat now node e =
+    (stamp now lat, MNew (sym_of (ev_call K e2 "instrument")) node (action_number (ev_call K e2 "add_action"))
+                         (vnum (ev_call K e2 "group")) ps) :: gate.
+Proof.
+  intros K lib lat now node e ps H. unfold play_note, get_msg_params. rewrite H.
+  destruct (truthy (ev_call K (put "freq" (VNum (detuned_freq K e)) e) "send_gate")); eexists; eexists; reflexivity.
 Qed.
 
 (* ---- the player ---------------------------------------------------------------------------------------- *)
